@@ -38,7 +38,8 @@ def check_next(chk, cfg, rule, self_re, what, build):
     b = an.one(chk, rule, cfg.bio, what, name="next", trait=ITER, self_re=self_re)
     if b is None:
         return
-    paths, N = an.analyse(cfg, b)
+    # get / nth / len are decided by C03's rows (imported below): an iterator may be written on top of them
+    paths, N = an.analyse(cfg, b, policy=an.InlineAlso("seq::slice::SeqSlice::<A>::get", "seq::slice::SeqSlice::<A>::nth", "seq::slice::SeqSlice::<A>::len"))
     exp = build(b)
     if exp is None:
         return
